@@ -8,7 +8,7 @@ for d in seeded/*/; do
   name=$(basename "$d")
   WT="/tmp/vfmx_${name}_$$"
   git -C /repo worktree add -q "$WT" HEAD || continue
-  if git -C "$WT" apply "$d/patch.diff"; then
+  if git -C "$WT" apply "$(pwd)/${d}patch.diff"; then
     row="$name"
     for P in C01 C02 C03 C04 C05 C06 C07 C08 C09 C10 C11 C12 C13 C14 C15 C16 C17 C18 C19 C20; do
       VERIF_REPO="$WT" VERIF_OUTDIR="out/mx/$name" VERIF_EVIDENCE_DIR="out/mx/$name/ev" ./check $P --n "$N" > "out/mx_last.txt" 2>&1
